@@ -985,8 +985,15 @@ def enumerate_hist(st, rng, n, part=0, parts=1):
     if has1:
         # connection-id histories
         add("NCID_F4_OUT_OF_ORDER_THEN_SWITCH")
-        for s in range(24):
-            add("NCID_RANDOM_HISTORY", seed=rng.randrange(1 << 30), steps=rng.choice([6, 12, 30]))
+        for s in range(40):
+            add("NCID_RANDOM_HISTORY", seed=rng.randrange(1 << 30), steps=rng.choice([6, 12, 30, 60]))
+        import itertools
+
+        for order in itertools.permutations([11, 12, 13]):
+            for nswitch in (0, 1, 2):
+                for rep in (11, 12, 13):
+                    for rpt in (rep, 11):
+                        add("NCID_PERMUTED_THEN_REPEAT", order=list(order), nswitch=nswitch, rep=rep, rpt=rpt)
         add("RETIRE_ALL_THEN_USE_RETIRED")
         add("MANY_STREAMS", count=128)
         add("MANY_STREAMS", count=600)
@@ -1050,11 +1057,15 @@ def mat_hist(st, d):
         r = random.Random(d["seed"])
         steps = []
         hi = 1
+        seen = []
         for _ in range(d["steps"]):
             c = r.random()
             if c < 0.55:
                 seq = r.choice([hi, hi + 1, hi + 2, r.randrange(0, hi + 3)])
-                rpt = r.choice([0, seq, max(0, seq - 1), r.randrange(0, seq + 1)])
+                if seen and r.random() < 0.3:
+                    seq = r.choice(seen)  # a repeated sequence number (retransmission), possibly one already used and retired
+                rpt = r.choice([0, seq, seq, max(0, seq - 1), r.randrange(0, seq + 1)])
+                seen.append(seq)
                 hi = max(hi, seq + 1)
                 fr = ["new_cid", seq, rpt, 8, 8, 16, 0x80 + (seq & 0x3F)]
                 steps.append(lambda s, fr=fr: [(s.peer.packet("1rtt", build_frame(fr)), None)])
@@ -1063,6 +1074,14 @@ def mat_hist(st, d):
                 steps.append(lambda s, fr=fr: [(s.peer.packet("1rtt", build_frame(fr)), None)])
             else:
                 steps.append(_switch_cid)
+        return Script(steps)
+    if k == "NCID_PERMUTED_THEN_REPEAT":
+        # connection IDs arriving out of numeric order are consumed in arrival order; after some switches an
+        # already used (and retired) sequence number is repeated with a Retire Prior To that covers everything left
+        def ncid(seq, rpt):
+            return lambda s, seq=seq, rpt=rpt: [(s.peer.packet("1rtt", build_frame(["new_cid", seq, rpt, 8, 8, 16, 0x40 + (seq & 0x3F)])), None)]
+
+        steps = [ncid(10, 8)] + [ncid(q, 0) for q in d["order"]] + [_switch_cid] * d["nswitch"] + [ncid(d["rep"], d["rpt"]), _switch_cid]
         return Script(steps)
     if k == "RETIRE_ALL_THEN_USE_RETIRED":
         return Script([lambda s: [(s.peer.packet("1rtt", b"".join(build_frame(["retire_cid", i]) for i in range(1, 8))), None)], _switch_cid,
